@@ -264,6 +264,9 @@ def run(ctx):
         prog = ctx.prog(config)
         # ---- a
         rl = prog.need_func('read_lead')
+        # ---- i  no pin is compared after a narrowing conversion (equality modulo 2^32 is not equality)
+        from ..rules import extra as _x7
+        _x7.check_narrow_compare(ck, prog, config, 'C07-i', ('src/lib/header.c',), what='pinned or stored header value')
         r = PinRule(prog, rl)
         run_rule(prog, rl, r)
         ck.require(r.success_exits >= 1, 'read_lead has no success exit')
